@@ -21,8 +21,15 @@ fn describe<T: SwiftMessageBody>(m: &SwiftMessage<T>) -> Value {
     let before = format!("{:?}", m);
     let full = m.fields.validate_network_rules(false);
     let stop = m.fields.validate_network_rules(true);
-    let full2 = m.fields.validate_network_rules(false);
-    let stop2 = m.fields.validate_network_rules(true);
+    // repeat several times and keep the first repetition that differs (an order that depends on a
+    // per-instance hash seed shows up with probability 1/2 per repetition at least)
+    let mut full2 = m.fields.validate_network_rules(false);
+    let mut stop2 = m.fields.validate_network_rules(true);
+    for _ in 0..6 {
+        if errs_json(&full2) != errs_json(&full) || errs_json(&stop2) != errs_json(&stop) { break; }
+        full2 = m.fields.validate_network_rules(false);
+        stop2 = m.fields.validate_network_rules(true);
+    }
     let vr = m.validate();
     let after = format!("{:?}", m);
     json!({
